@@ -188,8 +188,13 @@ impl Report {
         ok
     }
     pub fn sample(&mut self, v: impl FnOnce() -> Value) {
+        // evidence samples evaluate library code too: a panic there must not take the report (and the
+        // verdicts already recorded in it) down with it
         if self.samples.len() < MAX_SAMPLES {
-            self.samples.push(v());
+            match guard(v) {
+                Ok(x) => self.samples.push(x),
+                Err(e) => self.samples.push(serde_json::json!({"sample_panicked": e})),
+            }
         }
     }
     /// The run is inconclusive unless `regime` was observed at least `min` times.
